@@ -376,11 +376,15 @@ class Gen:
                 n = 1
             elif rng.random() < 0.3:
                 n = rng.choice([1, 1, 2, 3])
+        pure = kind not in ('case', 'dollar')
         for _ in range(n):
             self.emit('op', rng.choice(['+', '-', '*', '/', '||', '%']),
                       'req')
-            _, l, _ = self.atom(depth, 'req')
-            kind = 'operation'
+            _, l, k2 = self.atom(depth, 'req')
+            pure = pure and k2 not in ('case', 'dollar')
+            # an operand the operator grouping does not accept (CASE,
+            # dollar-quoted literal) leaves the expression ungrouped
+            kind = 'operation' if pure else 'operation-x'
         return f, l, kind
 
     def case_expr(self, depth, gap=None):
@@ -515,16 +519,18 @@ class Gen:
         if x < 0.5:
             f, l, qual, nm = self.colref(self.g(), ctx='select')
             if nm == '*':
-                return f, l
+                return f, l, 'col'
             al, has_as, ai = self.alias()
             ref = dict(first=f, last=ai if ai is not None else l, qual=qual,
-                       name=nm, alias=al, has_as=has_as, ctx=ctx)
+                       name=nm, alias=al, has_as=has_as, ctx=ctx, name_tok=l)
             self.s.refs.append(ref)
-            return f, ref['last']
+            return f, ref['last'], 'col'
         f, l, kind = self.expr(depth, self.g())
         bare_ok = kind in ('col', 'call', 'paren')
         al, has_as, ai = self.alias(allow_bare=bare_ok)
-        return f, ai if ai is not None else l
+        if ai is not None and kind != 'operation-x':
+            kind = 'aliased'
+        return f, ai if ai is not None else l, kind
 
     def table_ref(self, depth, ctx):
         rng = self.rng
@@ -536,13 +542,13 @@ class Gen:
             if rng.random() < 0.5:
                 self.kw('AS')
             i, nm = self.name_token('req')
-            return o, i
+            return o, i, 'aliased'
         f, l, qual, nm = self.colref(self.g(), ctx='from')
         al, has_as, ai = self.alias()
         ref = dict(first=f, last=ai if ai is not None else l, qual=qual,
-                   name=nm, alias=al, has_as=has_as, ctx=ctx)
+                   name=nm, alias=al, has_as=has_as, ctx=ctx, name_tok=l)
         self.s.refs.append(ref)
-        return f, ref['last']
+        return f, ref['last'], 'col'
 
     JOINS = ['JOIN', 'INNER JOIN', 'LEFT JOIN', 'LEFT OUTER JOIN',
              'RIGHT JOIN', 'RIGHT OUTER JOIN', 'FULL OUTER JOIN',
@@ -648,7 +654,7 @@ class Gen:
                 self.name_token(self.g(), allow_quoted=False)
             self.close_paren(o)
         self.s.refs.append(dict(first=f, last=l, qual=qual, name=nm,
-                                alias=None, has_as=False,
+                                alias=None, has_as=False, name_tok=l,
                                 ctx='insert-cols' if ncols else 'insert'))
         if rng.random() < 0.7 or not self.cfg.subqueries:
             self.kw('VALUES')
@@ -673,7 +679,8 @@ class Gen:
         self.kw('UPDATE', 'opt')
         f, l, qual, nm = self.colref(ctx='update')
         self.s.refs.append(dict(first=f, last=l, qual=qual, name=nm,
-                                alias=None, has_as=False, ctx='update'))
+                                alias=None, has_as=False, ctx='update',
+                                name_tok=l))
         self.kw('SET')
         for k in range(rng.choice([1, 1, 2, 3])):
             if k:
@@ -693,7 +700,8 @@ class Gen:
         self.kw('FROM')
         f, l, qual, nm = self.colref(ctx='delete')
         self.s.refs.append(dict(first=f, last=l, qual=qual, name=nm,
-                                alias=None, has_as=False, ctx='delete'))
+                                alias=None, has_as=False, ctx='delete',
+                                name_tok=l))
         if rng.random() < 0.8:
             w = self.kw('WHERE')
             _, l = self.cond(min(depth, 1))
@@ -730,6 +738,13 @@ class Gen:
         self.colref(ctx='ddl')
         self.kw('AS')
         self.select_core(max(depth - 1, 0), top=True)
+
+    def create_table_as(self, depth):
+        self.kw('CREATE', 'opt')
+        self.kw('TABLE')
+        self.colref(ctx='ddl')
+        self.kw('AS')
+        self.select_core(max(depth, 1), top=True)
 
     def create_index(self, depth):
         self.kw('CREATE', 'opt')
@@ -807,7 +822,7 @@ class Gen:
                 kinds += ['insert', 'insert', 'update', 'update', 'delete']
             if cfg.ddl:
                 kinds += ['create_table', 'create_view', 'create_index',
-                          'drop', 'alter']
+                          'drop', 'alter', 'create_table_as']
             if cfg.ctes:
                 kinds += ['with', 'with']
             kind = rng.choice(kinds)
@@ -834,6 +849,9 @@ class Gen:
             s.stype = s.toks[0].text
         elif kind == 'create_index':
             self.create_index(depth)
+            s.leading, s.stype = 'CREATE', 'CREATE'
+        elif kind == 'create_table_as':
+            self.create_table_as(depth)
             s.leading, s.stype = 'CREATE', 'CREATE'
         elif kind == 'drop':
             self.drop_stmt(depth)
